@@ -18,9 +18,17 @@
    An operation carries its outcome:
      Ok                     the commit point (pointer write) succeeded
      FailEarly              lock timeout / validation conflict / the metadata write itself failed: nothing written
-     FailCommitPoint c      the metadata file was written, then the fence or the pointer write failed cleanly;
-                            commit()/initialize_table() remove the file again (c = true); c = false: that
-                            best-effort delete failed too, the file stays behind unpublished
+     FailCommitPoint c      the metadata file was written and the commit point was not reached or failed:
+                            c = true   the fence or the pointer write failed cleanly (an Exception other than
+                                       AmbiguousCommitError): commit()/initialize_table() remove the file again;
+                            c = false  the file STAYS BEHIND, never published.  The code as it is does this when the
+                                       process dies between the two writes, when a KeyboardInterrupt / SystemExit
+                                       arrives there (not an Exception: the removal arm does not run), when the pointer
+                                       PUT of a conditional-write backend fails ambiguously without landing
+                                       (AmbiguousCommitError: kept on purpose), and when the best-effort removal fails
+                                       (harness/props/c10.py LEFTOVER_OPS drives each of them on the real code)
+   The machine is SEQUENTIAL: one operation at a time.  A commit in progress seen by a concurrent opener is the
+   state after `FailCommitPoint false` (file written, pointer not yet flipped); nothing else of concurrency is here.
    File ids (the 8 random hex digits), mtimes, the position at which the backend lists a new file, table
    uuids and snapshot ids are supplied by the event: the theorems quantify over all of them.
 
@@ -133,6 +141,8 @@ Definition not_stale (p : option (option (list cp))) (st : store) : Prop :=
   | _ => True
   end.
 
+(* ---- CLEAN histories: no operation leaves a never-published metadata file behind.  In every store they reach
+        every file is published (Proofs/HintStoreProofs.v inv_com), so they say nothing about leftovers. ---- *)
 Definition clean_outcome (o : outcome) : Prop := o <> FailCommitPoint false.
 
 Definition ok_event (st : store) (e : event) : Prop :=
@@ -149,7 +159,86 @@ Fixpoint ok_history (st : store) (h : list event) : Prop :=
   end.
 
 (* stores reachable from the empty directory by such a history *)
-Definition reachable (st : store) : Prop := exists h, ok_history empty_store h /\ st = run empty_store h.
+Definition reachable_clean (st : store) : Prop := exists h, ok_history empty_store h /\ st = run empty_store h.
+
+(* ---- histories WITH leftovers: any outcome, `FailCommitPoint false` included ---- *)
+
+(* recovery's order: f ranks below L (lower version, or the same version and a strictly older mtime); f does not
+   outrank x (mtime <=); f outranks L *)
+Definition below (f L : mfile) : Prop := fver f < fver L \/ (fver f = fver L /\ (fmt f < fmt L)%Z).
+Definition not_above (f x : mfile) : Prop := fver f < fver x \/ (fver f = fver x /\ (fmt f <= fmt x)%Z).
+Definition above (f L : mfile) : Prop := fver L < fver f \/ (fver f = fver L /\ (fmt L < fmt f)%Z).
+
+(* no two stored files have the same name *)
+Definition names_unique (fs : list mfile) : Prop :=
+  forall f g, In f fs -> In g fs -> name_eqb (fname f) (fname g) = true -> f = g.
+(* every other file ranks below L *)
+Definition others_below (fs : list mfile) (L : mfile) : Prop := forall f, In f fs -> f <> L -> below f L.
+
+(* the metadata file an operation writes before its commit point, if it gets that far *)
+Definition written (st : store) (e : event) : option mfile :=
+  match e with
+  | ECreate id t _ uuid _ =>
+    match refresh st with
+    | RfNone => Some {| fver := 0; fid := id; fmt := t; fcom := false; fuuid := uuid; fsnaps := [] |}
+    | _ => None
+    end
+  | ECommit id t _ sid _ =>
+    match refresh st with
+    | RfMeta v base =>
+      if printable (v + 1)
+      then Some {| fver := v + 1; fid := id; fmt := t; fcom := false; fuuid := fuuid base; fsnaps := fsnaps base ++ [sid] |}
+      else None
+    | _ => None
+    end
+  | EDamage _ => None
+  end.
+
+(* outcomes after which the written file is still there *)
+Definition writes (o : outcome) : Prop := o = Ok \/ o = FailCommitPoint false.
+
+(* the random suffix did not collide: no stored file has the new file's name ... *)
+Definition fresh_name (fs : list mfile) (n : mfile) : Prop := forall f, In f fs -> name_eqb (fname f) (fname n) = false.
+(* ... and a damaged pointer does not happen to hold it *)
+Definition unnamed (p : option (option (list cp))) (n : mfile) : Prop :=
+  match read_hint p with PRet (Some (_, name)) => name_eqb (fname n) name = false | _ => True end.
+
+(* the pointer content parses and names L *)
+Definition hint_names (p : option (option (list cp))) (L : mfile) : Prop :=
+  match read_hint p with PRet (Some (_, name)) => name_eqb (fname L) name = true | _ => False end.
+
+(* every never-published file ranks below the latest published one (and there is a published one) *)
+Definition leftovers_below (st : store) : Prop :=
+  forall f, In f (files st) -> fcom f = false -> match glatest st with Some L => below f L | None => False end.
+
+(* THE extra hypothesis of the leftover theorems.  A resolution with pointer content p is SAFE in st when p names the
+   latest published file (recovery does not run) or no leftover can win the recovery scan.  It fails exactly when the
+   pointer is unusable while a never-published file has a higher version than the latest published one, or the same
+   version and an mtime that is not older (Proofs/HintLeftoverProofs.v recovery_safe_iff). *)
+Definition safe_use (p : option (option (list cp))) (st : store) : Prop :=
+  (exists L, glatest st = Some L /\ hint_names p L) \/ leftovers_below st.
+
+Definition ok_event_lv (st : store) (e : event) : Prop :=
+  match e with
+  | ECreate id _ _ _ o =>
+    wf_id id = true
+    /\ (forall n, written st e = Some n ->
+          (writes o -> fresh_name (files st) n) /\ (o = FailCommitPoint false -> unnamed (ptr st) n))
+  | ECommit id _ _ _ o =>
+    wf_id id = true
+    /\ (forall n, written st e = Some n ->
+          (writes o -> fresh_name (files st) n) /\ (o = FailCommitPoint false -> unnamed (ptr st) n))
+    /\ (writes o -> safe_use (ptr st) st)          (* no commit is built on a never-published version *)
+  | EDamage p => ascii_classified p /\ ~ stale p st
+  end.
+
+Fixpoint ok_history_lv (st : store) (h : list event) : Prop :=
+  match h with
+  | [] => True
+  | e :: h' => ok_event_lv st e /\ ok_history_lv (step st e) h'
+  end.
+
+Definition reachable_lv (st : store) : Prop := exists h, ok_history_lv empty_store h /\ st = run empty_store h.
 
 (* the same histories with NO restriction on what happens to the pointer, and with failed commits whose
    metadata file could not be removed: used to state what does not hold *)
